@@ -29,6 +29,7 @@ typedef struct vs_config {
   int targeted;
   // stall strategy: hold thread (stall_thread-1) at its stall_at-th access to the watched object for up to stall_len points
   int stall_thread;
+  int stall_any;  // 1: stall_at counts all scheduling points of that thread, 0: only its accesses to the watched object
   uint64_t stall_at;
   uint64_t stall_len;
   // replay
@@ -55,6 +56,7 @@ typedef struct vs_result {
   uint64_t trace_hash;  // hash of the decision list (distinctness)
   uint64_t tso_buffered, tso_hidden_reads;
   uint64_t watch_hits_t[VS_MAX_THREADS];
+  uint64_t points_t[VS_MAX_THREADS];
 } vs_result_t;
 
 extern vs_result_t* vs_res;  // set by the runner before vs_begin
